@@ -168,6 +168,10 @@ def family_graph(name, size):
     if name == "manyfinals":       # shallow graph, `size` final states (distinct, then a few repeated many times)
         tl = [[(LABEL, size + (i % 3))] for i in range(size)] + [[(LABEL, size + 1)], [], [(LABEL, 0)]]
         return tl, list(range(size)) + [0, 1] * (size // 2)
+    if name in ("manyfinals-desc", "manyfinals-mixed"):      # `size` final states that reach one another, listed in descending / interleaved order
+        tl = [[(LABEL, (i + 1) % size), (LABEL, size + (i % 3))] for i in range(size)] + [[(LABEL, size + 1)], [], [(LABEL, 0)], [(LABEL, size + 2)]]
+        fin = list(range(size))[::-1] if name.endswith("desc") else list(range(size))[1::2] + list(range(size))[0::2][::-1]
+        return tl, fin
     if name == "selfloops":
         return [[(LABEL, i), (LABEL, i + 1 if i + 1 < size else i)] for i in range(size)], [size - 1, size - 1, 0]
     raise ValueError(name)
@@ -285,8 +289,8 @@ def plan(ctx):
         for lo, hi in par.ranges(size, ctx.jobs * 4 if size > 5000 else 1):
             shards.append(("small", n, deg, un, fl, lo, hi))
     sizes = [10, 100, 900, 1000, 1100, 5000, 20000]
-    for name in ("chain", "rchain", "cycle", "bintree", "ladder", "dag", "selfloops", "manyfinals"):
-        for s in sizes:
+    for name in ("chain", "rchain", "cycle", "bintree", "ladder", "dag", "selfloops", "manyfinals", "manyfinals-desc", "manyfinals-mixed"):
+        for s in sizes + ([33, 40, 65, 70, 130] if name.startswith("manyfinals-") else []):
             shards.append(("ladder", name, s))
     for n, full in ((9, True), (10, True), (12, True), (17, True), (33, False), (65, False), (130, False)):
         shards.append(("sparse", n, full or ctx.thorough and n <= 33))
@@ -303,9 +307,9 @@ def run(ctx):
     expected_calls = sum(s["graphs"] * s["final_sequences"] for s in spaces)
     truncated = tot.get("truncated", 0)
     if not truncated and tot["calls"] - tot.get("ladder", 0) - 3 * tot.get("boards", 0) - tot.get("sparse", 0) != expected_calls:
-        raise par.HarnessError("C07: enumerated %d calls, expected %d" % (tot["calls"], expected_calls))
-    if tot["nontrivial"] < 2:
-        raise par.HarnessError("C07 vacuity guard: no graph with a doubly-reached state")
+        raise par.GuardError("C07: enumerated %d calls, expected %d" % (tot["calls"], expected_calls))
+    if not tot.get("violations") and tot["nontrivial"] < 2:
+        raise par.GuardError("C07 vacuity guard: no graph with a doubly-reached state")
     cov = {"states": tot["graphs"], "transitions": tot["calls"], "traces_validated_against_impl": tot["calls"],
            "evaluations": tot["calls"], "distinct_nontrivial": tot["nontrivial"],
            "rule": "every directed multigraph in the listed spaces x every final sequence (order and repetitions "
